@@ -369,7 +369,16 @@ pub fn apply_mutation(t: &Table, l: &Layout, v: &Val, m: &Mutation, pool: &[Vec<
             if !bcd.is_empty() {
                 class = "digit-overflow";
                 let (path, gi, ei) = bcd[pick(m.sel, bcd.len())].clone();
-                let digits: Vec<u8> = if m.a % 2 == 0 { vec![0x99; 1 + (m.b % 40) as usize] } else { m.bytes.iter().cloned().chain([0x12]).take(40).collect() };
+                let last = m.bytes.first().copied().unwrap_or(0xee);
+                let digits: Vec<u8> = match m.a % 7 {
+                    0 | 1 => vec![0x99; 1 + (m.b % 40) as usize],
+                    2 => m.bytes.iter().cloned().chain([0x12]).take(40).collect(),
+                    // leading digits right at the overflow limit of u8 / u16 / u32 / u64, then an arbitrary last byte
+                    3 => vec![0x02 + (m.b % 2) as u8, last],
+                    4 => vec![0x06, 0x55 - (m.b % 2) as u8, last],
+                    5 => vec![0x42, 0x94, 0x96, 0x72 - (m.b % 2) as u8, last],
+                    _ => vec![0x18, 0x44, 0x67, 0x44, 0x07, 0x37, 0x09, 0x55, 0x16 - (m.b % 3) as u8, last],
+                };
                 level_mut(&mut gs, &path)[gi].elems[ei].node = Node::Leaf(digits);
             }
         }
